@@ -349,16 +349,29 @@ class RealWorld(object):
         self.protos[int(p)].ping()
 
     def op_publish(self, p, topic, payload, qos, retain):
-        d = self.protos[int(p)].publish(parse_str(topic), parse_str(payload), parse_num(qos), retain == '1')
+        pl = parse_str(payload)
+        d = self.protos[int(p)].publish(parse_str(topic), pl, parse_num(qos), retain == '1')
         self.track(d)
+        if isinstance(pl, bytearray):
+            # the application reuses its buffer once publish() has returned: what was accepted must have been captured by then
+            # (retransmissions carry the same bytes as the first transmission -- C08)
+            for i in range(len(pl)):
+                pl[i] ^= 0xFF
+            pl.extend(b'reused')
 
     def op_subscribe(self, p, arg, qos='0'):
-        d = self.protos[int(p)].subscribe(parse_subarg(arg), parse_num(qos))
+        a = parse_subarg(arg)
+        d = self.protos[int(p)].subscribe(a, parse_num(qos))
         self.track(d)
+        if isinstance(a, list):
+            del a[:]            # likewise: the caller's list is the caller's again
 
     def op_unsubscribe(self, p, arg):
-        d = self.protos[int(p)].unsubscribe(parse_subarg(arg))
+        a = parse_subarg(arg)
+        d = self.protos[int(p)].unsubscribe(a)
         self.track(d)
+        if isinstance(a, list):
+            del a[:]
 
     def op_setwin(self, p, n):
         self.protos[int(p)].setWindowSize(parse_num(n))
